@@ -175,10 +175,15 @@ info('C16',
       'not built'],
      [])
 info('C17',
+     'P: relational save -> load symbolic execution over an abstract store (ghost path/attribute dictionaries) of the real '
+     'save_hdf5/from_hdf5 pairs of ChargeInfo, DipolarChargeInfo, LegCharge [blocks], LegPipe [blocks, compact, flat], Array and the generic '
+     'Hdf5Exportable __dict__ export (TruncationError): key agreement (every path/attribute read was written in that format), well-formed '
+     'calls, field-by-field equality. '
      'B (bounded, not proof): real HDF5 round trip in every LegCharge format (blocks, compact, flat) and pickle round trip of instances '
      'of every Hdf5Exportable class found by reflection (uncovered classes are listed in coverage.bounded.bounds), of nested containers, '
      'shared references and self-referential containers; recursive observational equality and test_sanity() of the loaded object.',
-     ['relational save->load symbolic execution over an abstract store (DESIGN 4/C17): not built; bounded only', 'h5py and pickle themselves'],
+     ['the relational execution covers the small classes only; Site, MPS, MPO, lattices, models, term containers, Hdf5Saver/Loader dispatch '
+      'pairs and pickle (__getstate__/__setstate__) are bounded only', 'h5py and pickle themselves'],
      [])
 info('C18',
      'P: crash invariant of Simulation.save_results over the full finite file-state domain (ghost states absent/partial/complete(old)/'
